@@ -44,6 +44,7 @@ import numpy as np
 from harness import core
 from harness.props import c18_vh as _vh   # RealLike terms: Vh / refinement decision / beta (extension)
 from harness.props import c18_deep as _deep   # deep refinement chains, scripted rounds (extension)
+from harness.props import c18_iso as _iso     # read-only methods mutate nothing; two live instances (extension)
 
 TITLE = "Adaptive discretisation / VOGP_AD set surgery vs Lean model"
 RULE = ("space: (d in 1..3, max depth <= 6, op sequence of direct/guarded refinements of random leaves and "
@@ -545,6 +546,18 @@ def gen(ctx):
             yield _deep.gen_deep(ctx, rng, j)
         if j < n_round:
             yield _deep.gen_round(ctx, rng, j)
+    # structured: every public read-only method interleaved with refinements; two VOGP_AD instances alive at
+    # the same time (c18_iso.py).  The first cases of both families are fixed and run in every quick run
+    # (worker 0 only when sharded).
+    n_ro, n_two = ctx.n(16, 600), ctx.n(8, 200)
+    for j in range(max(n_ro, n_two)):
+        fixed_ro, fixed_two = j < len(_iso.FIXED_READONLY), j < len(_iso.FIXED_TWOINST)
+        if j < n_ro or (fixed_ro and ctx.worker == 0):
+            if not fixed_ro or ctx.worker == 0:
+                yield _iso.gen_readonly(ctx, rng, j)
+        if j < n_two or (fixed_two and ctx.worker == 0):
+            if not fixed_two or ctx.worker == 0:
+                yield _iso.gen_twoinst(ctx, rng, j)
     n_space, n_run, n_phase = ctx.n(220, 10000), ctx.n(14, 420), ctx.n(160, 6000)
     for j in range(max(n_space, n_run, n_phase)):
         if j < n_space:
@@ -596,6 +609,22 @@ def run_case(ctx, case):
                 return _deep.run_round(ctx, case)
         finally:
             np.random.set_state(st)
+    if kind == "readonly":
+        return _iso.run_readonly(ctx, case)
+    if kind == "twoinst":
+        import torch
+
+        import warnings
+
+        st, nt = np.random.get_state(), torch.get_num_threads()
+        torch.set_num_threads(1)
+        try:
+            with warnings.catch_warnings():
+                warnings.simplefilter("ignore")
+                return _iso.run_twoinst(ctx, case)
+        finally:
+            np.random.set_state(st)
+            torch.set_num_threads(nt)
     if kind == "vh":
         return _vh.run_vh(ctx, case)
     if kind == "beta":
@@ -838,6 +867,16 @@ def _run_algo(ctx, case):
 def _observe_run(ctx, case, alg, problem, dmax, pname, mkind, after=None):
     """Observe a constructed VOGP_AD phase by phase for case["rounds"] rounds: (R) on the real state and (F)
     against the model replay after every run_one_step()."""
+    for _ in _observe_steps(ctx, case, alg, problem, dmax, pname, mkind, after=after):
+        pass
+
+
+def _observe_steps(ctx, case, alg, problem, dmax, pname, mkind, after=None, finish=True, rounds=None, tag=""):
+    """Generator form of the observation: yields "ok" / "done" after every checked run_one_step(); simply ends
+    after a violation, a crash or the round cap.  `finish=False`: the caller calls ctx.case_done itself (several
+    instances observed inside one case, c18_iso.py); `tag` names the instance in violation details."""
+    if rounds is None:
+        rounds = case["rounds"]
     d, m = problem.in_dim, problem.out_dim
     ctx.count(f"run_d{d}")
     rec = _Recorder(alg)
@@ -846,7 +885,7 @@ def _observe_run(ctx, case, alg, problem, dmax, pname, mkind, after=None):
     nrounds = 0
     done = False
     status = "cap"
-    while nrounds < case["rounds"]:
+    while nrounds < rounds:
         S_before, P_before = set(alg.S), set(alg.P)
         rec.step_refines = []
         round_before = alg.round
@@ -875,7 +914,8 @@ def _observe_run(ctx, case, alg, problem, dmax, pname, mkind, after=None):
         except Exception as e:
             ctx.violation("arrays-out-of-step", f"design-space arrays cannot be read: {type(e).__name__}: {e}",
                           case, kind="R")
-            ctx.case_done(case, True)
+            if finish:
+                ctx.case_done(case, True)
             return
         S, P = set(int(i) for i in alg.S), set(int(i) for i in alg.P)
         viol = check_arrays(snap, d)
@@ -932,16 +972,18 @@ def _observe_run(ctx, case, alg, problem, dmax, pname, mkind, after=None):
         if viol is None and not (P_before - {p for p, _, _ in rec.step_refines}) <= P:
             viol = ("P-shrinks", "a declared design left P without being refined")
         if viol:
-            ctx.violation(viol[0], viol[1], case, kind="R", detail={"round": nrounds})
-            ctx.case_done(case, True)
+            ctx.violation(viol[0], viol[1], case, kind="R", detail={"instance": tag, "round": nrounds})
+            if finish:
+                ctx.case_done(case, True)
             return
         # ---------------- (F) model replay of everything observed so far
         ans = ctx.ask("algo", str(d), str(m), str(dmax), ";".join(rec.tokens))
         if not ans.startswith("ok "):
             ctx.violation("run-model-undefined", f"model answers {ans!r}: an observed phase is undefined in the "
                           f"model (token {rec.tokens[int(ans[5:])] if ans.startswith('none@') else '?'}); notes={rec.notes}",
-                          case, kind="F", detail={"round": nrounds})
-            ctx.case_done(case, True)
+                          case, kind="F", detail={"instance": tag, "round": nrounds})
+            if finish:
+                ctx.case_done(case, True)
             return
         f = ans.split(" ")[1:]
         mod = parse_space(f)
@@ -954,15 +996,18 @@ def _observe_run(ctx, case, alg, problem, dmax, pname, mkind, after=None):
                  "discarded-leaves")
         if where:
             ctx.violation("run-arrays", f"design-space arrays differ from the model replay at {where} after round "
-                          f"{nrounds}", case, kind="F", detail={"round": nrounds, "notes": rec.notes})
-            ctx.case_done(case, True)
+                          f"{nrounds}", case, kind="F", detail={"instance": tag, "round": nrounds, "notes": rec.notes})
+            if finish:
+                ctx.case_done(case, True)
             return
         for nm, a, b in zip(names, real_state, mod_state):
             if a != b:
                 ctx.violation("run-" + nm, f"{nm} differs from the model replay after round {nrounds}: real {a}, "
-                              f"model {b}", case, kind="F", detail={"round": nrounds, "notes": rec.notes})
-                ctx.case_done(case, True)
+                              f"model {b}", case, kind="F", detail={"instance": tag, "round": nrounds, "notes": rec.notes})
+                if finish:
+                    ctx.case_done(case, True)
                 return
+        yield "done" if done else "ok"
         if done:
             status = "done"
             break
@@ -976,7 +1021,8 @@ def _observe_run(ctx, case, alg, problem, dmax, pname, mkind, after=None):
         ctx.count("run_latched")
     if rec.notes:
         ctx.count("run_notes_info", len(rec.notes))
-    ctx.case_done(case, len(refined) >= 2)
+    if finish:
+        ctx.case_done(case, len(refined) >= 2)
 
 
 # ---- single phases on hand-built states -----------------------------------------------------------------
